@@ -9,7 +9,7 @@
 (* All quantities are milliseconds and fit TLC's 32-bit integers           *)
 (* (remaining <= 24 h = 86,400,000; 10 t <= 604,800,000).                  *)
 (***************************************************************************)
-EXTENDS Integers, Sequences, FiniteSets, TLC, Randomization, Json, IOUtils
+EXTENDS Integers, Sequences, FiniteSets, TLC, Randomization, Json, IOUtils, SequencesExt
 
 DAY == 86400000
 RemBoundary == {0, 1, 2, 3, 9, 10, 11, 99, 100, 101, 999, 1000, 1001, 1428, 1429, 9999, 10000, 59999, 60000, 60001,
@@ -18,10 +18,8 @@ IncBoundary == {0, 1, 10, 100, 1000, 2000, 5000, 30000, 600000}
 MtgBoundary == {0, 1, 2, 3, 10, 39, 40, 49, 50, 51, 100, 200}
 PlyBoundary == {0, 1, 2, 10, 40, 63, 64, 65, 100, 128, 129, 300, 999, 1000}
 
-SetToSeq(S) == LET RECURSIVE go(_)
-                   go(X) == IF X = {} THEN <<>> ELSE LET m == CHOOSE y \in X : \A z \in X : y <= z IN <<m>> \o go(X \ {m})
-               IN go(S)
-RECURSIVE Join(_)
-Join(seq) == IF seq = <<>> THEN "" ELSE ToString(Head(seq)) \o (IF Len(seq) > 1 THEN " " ELSE "") \o Join(Tail(seq))
+\* sorted sequence of a set of integers and its textual form (library folds: no deep recursion on large sets)
+SortedSeq(S) == SetToSortSeq(S, LAMBDA a, b : a < b)
+Join(seq) == FoldLeft(LAMBDA acc, x : IF acc = "" THEN ToString(x) ELSE acc \o " " \o ToString(x), "", seq)
 Contract(rem, t) == 0 <= t /\ 10 * t <= 7 * rem
 =============================================================================
